@@ -321,8 +321,8 @@ impl Property for C19 {
             knobs: Knobs { max_nodes: 24, variant, ..Default::default() },
         };
         match tier {
-            Tier::Quick => vec![mk("trees", 40_000, 0), mk("single-nodes", 4_000, 1)],
-            Tier::Thorough => vec![mk("trees", 1_200_000, 0), mk("single-nodes", 60_000, 1)],
+            Tier::Quick => vec![mk("trees", 300_000, 0), mk("single-nodes", 20_000, 1)],
+            Tier::Thorough => vec![mk("trees", 2_500_000, 0), mk("single-nodes", 100_000, 1)],
         }
     }
 
